@@ -93,7 +93,9 @@ impl Family for C09Family {
         let faulty = index % 2 == 1;
         let wrap = *r.pick(&WRAPS);
         let mut store = gen_store_cfg(&mut r);
-        store.capability = Capability::Full;
+        if r.chance(2, 3) {
+            store.capability = Capability::Full;
+        }
         let backend = match r.below(8) {
             0 => Backend::Memory,
             1 => Backend::Slot,
